@@ -1,7 +1,7 @@
 """C02 — park/unpark never loses a wake-up (structural clauses)."""
 from lib import *
 from props import shared
-from props.shared import ao, atomic, A, slot_waiter, slot_waker
+from props.shared import ao, atomic, A, AO, slot_waiter, slot_waker
 
 EXPLANATION = ("R-SLOT (register-then-recheck / publish-then-take) on Park.wait_co and CancelImpl.co; R-ORDER inside "
                "park_timeout (token consumed first, kernel spin before arming, result consumed after); R-MO on Park.state / "
@@ -158,8 +158,25 @@ def check(ctx):
             ctx.guarded(TP + "::park_timeout", Agg("may::park::ParkError", "Timeout"), call_true(r"parking_lot::(condvar::)?WaitTimeoutResult::timed_out"),
                         "timeout-only-when-timed-out", "a thread park reports Timeout only when the condvar wait timed out", pred_label="edge `timed_out()` is true")
     # ---- provenance of injected results (R-WHO)
-    ctx.who_may_call(r"may::yield_now::set_co_para", {"may::scheduler::init_scheduler", "may::io::sys::timeout_handler", C + "::cancel"},
-                     "result-injectors", "only the timer handlers (TimedOut) and cancel (Other) inject a result into a suspended coroutine", min_callers=2)
+    ctx.who_may_call(r"may::yield_now::set_co_para", {"may::scheduler::init_scheduler", "may::io::sys::timeout_handler", C + "::cancel", SUB, "may::io::sys::EventData::store_co"},
+                     "result-injectors", "only the timer handlers, the subscribers' own deadline re-check (TimedOut) and cancel (Other) inject a result into a suspended coroutine", min_callers=2)
+    # the subscriber's own TimedOut injection only behind `now() >= deadline` and a re-taken coroutine
+    ge = lambda a: a.kind == "truth" and a.truth is True and a.origin[0] == "call" and (a.origin[2] or "").endswith("is_some_and")
+    ctx.guarded(SUB, Call(r"may::yield_now::set_co_para", transitive=False), ge, "deadline-recheck/timedout-only-after-deadline",
+                "Park::subscribe delivers Timeout itself only when the deadline recorded before arming has passed", pred_label="edge `deadline.is_some_and(|t| now() >= t)`")
+    ctx.guarded(SUB, Call(r"may::yield_now::set_co_para", transitive=False), variant_of_call(re.escape(AO) + "take", "Some"), "deadline-recheck/only-if-retaken",
+                "…and only into a coroutine it took back out of wait_co", pred_label="edge `wait_co.take()` is Some")
+    f = ctx.fn("R-ORDER", SUB, "deadline-recheck/after-publish")
+    if f is not None:
+        st = ctx.an.sites(f, ao("store", P + ".wait_co"), "must")
+        chk = ctx.an.sites(f, Call(r"(std|core)::option::Option::is_some_and", transitive=False), "must")
+        arm = ctx.an.sites(f, Call(r"may::scheduler::Scheduler::add_timer", transitive=True), "may")
+        okd = bool(st) and bool(chk) and bool(arm) and all(c in ctx.an.reach(f, [q for s0 in st for q in ctx.an.after(f, s0)]) for c in chk)
+        cl = [g for g in ctx.prog.closures_of(f) if ctx.an.may(g, Call(r"may::timeout_list::now", transitive=False))]
+        okd = okd and len(cl) >= 2   # the arming closure records the deadline, the re-check closure compares it
+        ctx.ob("R-ORDER", SUB, "deadline-recheck/after-publish", okd,
+               "Park::subscribe records the deadline when arming and re-checks it after publishing the coroutine (a timer that fired in between found the slot empty)" if okd else
+               "Park::subscribe arms the timer before publishing the coroutine and has no deadline re-check after the store: a subscriber stalled ≥ timeout loses the timeout for good", f.where())
     ctx.who_may_call(r"generator::(gen_impl|yield_)::co_set_para|generator::co_set_para", {"may::yield_now::yield_with"},
                      "self-injection", "only yield_with's cancelled short-circuit injects a result into the running coroutine")
     ctx.guarded("may::yield_now::yield_with", Call(r"generator::(\w+::)*co_set_para"), call_true(re.escape(C) + "::is_canceled"),
